@@ -6,18 +6,19 @@ CHECK = {
                  "real YAMLDictionary/ParameterFile, UnitConverter and GadgetDensityGridWriter + snapshot readers, compared "
                  "with an independent writer / dimension table / field function",
     "level_text": "Every key set with at most 3 keys of depth 1..4 over the names {a,b} (4 525 sets, 2 859 of them valid "
-                  "trees) is written by an independent YAML writer in every key order, several indentation styles and header "
-                  "sharing modes and with every assignment of the four value kinds, parsed by the real YAMLDictionary, "
-                  "printed by its printer, parsed and printed again (same keys and values, text fixed point), and run through "
-                  "the real ParameterFile for every subset of keys present/defaulted: the used-values dump is read back and "
-                  "must return every value to the printed precision. Every compound unit string of up to 3 factors "
-                  "(24 unit names x exponents -3..3 in every accepted spelling; 4.8 million strings) is given to the real "
-                  "UnitConverter and compared with the product of its parts, and converted to and from SI for every quantity "
-                  "of matching dimension. Every grid of 2..4 cells per axis x every subgrid layout x 4 boxes x 3 density "
-                  "fields is written by the real GadgetDensityGridWriter through the task based, hydro and legacy paths, the "
-                  "file is read with the plain HDF5 API and by both snapshot density functions and compared cell by cell. "
-                  "The thorough tier adds depth 5, 4-key sets, two 3-name alphabets, all 27 grid shapes, every spelling in "
-                  "3-factor unit strings and 4-factor strings. Exhaustive inside these bounds; nothing is sampled.",
+                  "trees) is written by an independent YAML writer in every key order with every assignment of the four "
+                  "value kinds (and in three indentation styles x two header sharing modes with a rotating assignment of "
+                  "17 value kinds), parsed by the real YAMLDictionary, printed by its printer, parsed and printed again "
+                  "(same keys and values, text fixed point), and run through the real ParameterFile with keys present or "
+                  "defaulted: the used-values dump is read back and must return every value to the printed precision. "
+                  "Every compound unit string of up to 3 factors (24 unit names x exponents -3..3; 4.8 million strings) is "
+                  "given to the real UnitConverter and compared with the product of its parts, and converted to and from "
+                  "SI for every quantity of matching dimension. Grids of 2..4 cells per axis x every subgrid layout x 4 "
+                  "boxes x 3 density fields are written by the real GadgetDensityGridWriter through the task based, hydro "
+                  "and legacy paths; the file is read with the plain HDF5 API and by both snapshot density functions and "
+                  "compared cell by cell. The thorough tier adds all styles/sharing modes/present masks, depth 5, 4-key "
+                  "sets, two 3-name alphabets ('a b', 'ab'), all 27 grid shapes, every exponent spelling in 3-factor unit "
+                  "strings and 4-factor strings. Exhaustive inside these bounds; nothing is sampled.",
     "level_note": "Names and values without ':' or '#'. Key sets that are not prefix free are run and their outcome "
                   "(rejected by cmac_error or kept as flat keys) is recorded, not judged. Snapshot boxes are representable in "
                   "the 6 digits the snapshot's parameter block keeps (a box that is not makes the buffered reader abort - "
